@@ -1,5 +1,6 @@
 """C10 - object checkout converges, is idempotent, honours link types, spares the cache."""
 
+from props import _objcheckout_audit as A
 from props import _objcheckout_common as C
 from props import _objcheckout_single as S
 
@@ -72,6 +73,7 @@ def run(ctx):
     C.check_deciders(ctx)
     streams = [("converge", ctx.n(70, 650)), ("rehistory", ctx.n(30, 250)), ("guard", ctx.n(15, 120)), ("missing", ctx.n(8, 80))]
     items = C.run_stream(ctx, streams, "C10")
+    items.extend(A.run_audit(ctx, "C10"))                   # tools/COVERAGE_AUDIT.md: every dimension, every run
     for case in CORPUS:                                     # regression inputs, always run
         case = dict(case, contents=dict(C.CONTENT_POOL))
         r = C.run_case(ctx, case)
